@@ -6,6 +6,13 @@ Translated (as *values*, so reordering/reformatting the dict literals changes no
 Fail closed: a key that is not `ast.<Class>` with <Class> in the fixed Python 3.12 vocabulary (Model/C03_ops.v), a value
 that is not a string constant / a plain function name, a missing table, or a duplicated key raises TranslatorError.
 A class absent from a table becomes `None` (the KeyError `_build` / `_build_*` would raise).
+
+Also translated:
+  tree_fixes            : which of the rendering repairs the tree contains, each detected by a small syntactic marker of the
+                          repaired code AND the matching marker of the unrepaired code (neither or both -> TranslatorError)
+  gen_binop_prec        : _binary_op_precedence (operator spelling -> level of _Precedence, mapped by member NAME to the
+                          numbering of ast._Precedence used by the model); empty when the tree has no precedence machinery.
+                          The order of the members of _Precedence is pinned (the model compares levels with <).
 """
 from __future__ import annotations
 
@@ -18,6 +25,10 @@ UNOPS = ["Invert", "Not", "UAdd", "USub"]
 BINOPS = ["Add", "Sub", "Mult", "MatMult", "Div", "Mod", "Pow", "LShift", "RShift", "BitOr", "BitXor", "BitAnd", "FloorDiv"]
 BOOLOPS = ["And", "Or"]
 CMPOPS = ["Eq", "NotEq", "Lt", "LtE", "Gt", "GtE", "Is", "IsNot", "In", "NotIn"]
+FIXES = ["prec", "lambda", "tuple0", "intattr", "genexp", "fconv", "fesc", "fglue", "fnest", "litroot"]
+# members of _Precedence in ascending order -> level in the numbering of ast._Precedence (Model/C03_expr.v: P_*)
+PREC_LEVELS = [("NONE", 0), ("YIELD", 3), ("TEST", 4), ("OR", 5), ("AND", 6), ("NOT", 7), ("CMP", 8), ("BOR", 9), ("BXOR", 10),
+               ("BAND", 11), ("SHIFT", 12), ("ARITH", 13), ("TERM", 14), ("FACTOR", 15), ("POWER", 16), ("AWAIT", 17), ("ATOM", 18)]
 NODES = ["Attribute", "Await", "BinOp", "BoolOp", "Call", "Compare", "comprehension", "Constant", "Dict", "DictComp",
          "FormattedValue", "GeneratorExp", "IfExp", "JoinedStr", "keyword", "Lambda", "List", "ListComp", "Name",
          "NamedExpr", "Set", "SetComp", "Slice", "Starred", "Subscript", "Tuple", "UnaryOp", "Yield", "YieldFrom"]
@@ -92,9 +103,97 @@ def read_tables(path: Path | None = None) -> dict:
     return found
 
 
-def render(found: dict) -> str:
+def _strip_doc(fn):
+    return [st for st in fn.body if not (isinstance(st, ast.Expr) and isinstance(st.value, ast.Constant) and isinstance(st.value.value, str))]
+
+
+def _text(fn) -> str:
+    return "\n".join(ast.unparse(st) for st in _strip_doc(fn))
+
+
+def _decide(name: str, new: bool, old: bool) -> bool:
+    if new == old:
+        raise TranslatorError(f"repair '{name}': " + ("both the repaired and the unrepaired shape" if new else "neither the repaired nor the unrepaired shape")
+                              + " recognised in expressions.py")
+    return new
+
+
+def read_fixes(path: Path | None = None) -> tuple[dict, list]:
+    """-> ({fix name: bool}, [(operator spelling, model level)...])"""
+    tree = ast.parse((path or (REPO / "src/_griffe/expressions.py")).read_text())
+    funcs = {n.name: n for n in tree.body if isinstance(n, ast.FunctionDef)}
+    classes = {n.name: n for n in tree.body if isinstance(n, ast.ClassDef)}
+
+    def method(cls: str, name: str = "iterate"):
+        c = classes.get(cls)
+        ms = [m for m in (c.body if c else []) if isinstance(m, ast.FunctionDef) and m.name == name]
+        if len(ms) != 1:
+            raise TranslatorError(f"{cls}.{name} not found")
+        return ms[0]
+
+    def params(fn):
+        return [a.arg for a in fn.args.posonlyargs + fn.args.args + fn.args.kwonlyargs]
+
+    for f in ("_yield", "_join", "_build_constant", "_build_joinedstr", "_build_subscript", "_build_formatted"):
+        if f not in funcs:
+            raise TranslatorError(f"{f} not found")
+    fixes = {}
+    # precedence machinery: all of (_Precedence, _precedence, _yield(precedence=), _join(precedence=)) or none of them
+    marks = ["_Precedence" in classes, "_precedence" in funcs, "precedence" in params(funcs["_yield"]), "precedence" in params(funcs["_join"])]
+    fixes["prec"] = _decide("prec", all(marks), not any(marks))
+    lam = _text(method("ExprLambda"))
+    fixes["lambda"] = _decide("lambda", "yield ', /'" in lam, "pos_or_kw" in lam)
+    tup = _text(method("ExprTuple"))
+    fixes["tuple0"] = _decide("tuple0", "not self.elements" in tup, tup.count("if not self.implicit:") == 2)
+    att = _text(method("ExprAttribute"))
+    fixes["intattr"] = _decide("intattr", ".isdecimal()" in att, "isdecimal" not in att and "(" not in att.replace("_join(", "").replace("_yield(", ""))
+    gen = _strip_doc(method("ExprGeneratorExp"))
+    first = ast.unparse(gen[0]) if gen else ""
+    call = _text(method("ExprCall"))
+    fixes["genexp"] = _decide("genexp", first == "yield '('" and "ExprGeneratorExp" in call, first.startswith("yield from _yield(self.element") and "ExprGeneratorExp" not in call)
+    ffields = [st.target.id for st in classes["ExprFormatted"].body if isinstance(st, ast.AnnAssign) and isinstance(st.target, ast.Name)] if "ExprFormatted" in classes else None
+    if ffields is None:
+        raise TranslatorError("class ExprFormatted not found")
+    fixes["fconv"] = _decide("fconv", ffields == ["value", "conversion", "format_spec"], ffields == ["value"])
+    fmt = _text(method("ExprFormatted"))
+    fixes["fglue"] = _decide("fglue", ".startswith('{')" in fmt, "startswith" not in fmt)
+    # _build_constant: what is returned for the literal text of an f-string
+    rets = [st for n in ast.walk(funcs["_build_constant"]) if isinstance(n, ast.If) and ast.unparse(n.test) == "in_joined_str and (not in_formatted_str)"
+            for st in n.body if isinstance(st, ast.Return)]
+    if len(rets) != 1:
+        raise TranslatorError("_build_constant: the `in_joined_str and not in_formatted_str` branch is not understood")
+    r = ast.unparse(rets[0].value)
+    fixes["fesc"] = _decide("fesc", r == "repr(node.value + '\"')[1:-2].replace('{', '{{').replace('}', '}}')", r == "node.value")
+    pj = params(funcs["_build_joinedstr"])
+    fixes["fnest"] = _decide("fnest", "in_formatted_str" in pj, pj == ["node", "parent", "in_joined_str"])
+    sub = _text(funcs["_build_subscript"])
+    fixes["litroot"] = _decide("litroot", "left.first" in sub, "isinstance(left, (ExprAttribute, ExprName)) and left.canonical_path in" in sub)
+    if fixes["fglue"] and not fixes["prec"]:
+        raise TranslatorError("repair 'fglue' without the precedence machinery it relies on")
+    # the precedence table
+    table = []
+    if fixes["prec"]:
+        members = [st.targets[0].id for st in classes["_Precedence"].body if isinstance(st, ast.Assign) and len(st.targets) == 1 and isinstance(st.targets[0], ast.Name)]
+        values = [st.value.value for st in classes["_Precedence"].body if isinstance(st, ast.Assign) and isinstance(st.value, ast.Constant)]
+        if members != [m for m, _ in PREC_LEVELS] or values != sorted(values) or len(set(values)) != len(values) or len(values) != len(members):
+            raise TranslatorError(f"_Precedence members are not the expected ascending levels: {members}")
+        level = dict(PREC_LEVELS)
+        dicts = [n for n in tree.body if isinstance(n, ast.Assign) and len(n.targets) == 1 and isinstance(n.targets[0], ast.Name) and n.targets[0].id == "_binary_op_precedence"]
+        if len(dicts) != 1 or not isinstance(dicts[0].value, ast.Dict):
+            raise TranslatorError("_binary_op_precedence is not a plain dict literal")
+        for k, v in zip(dicts[0].value.keys, dicts[0].value.values):
+            if not (isinstance(k, ast.Constant) and isinstance(k.value, str) and isinstance(v, ast.Attribute) and isinstance(v.value, ast.Name)
+                    and v.value.id == "_Precedence" and v.attr in level):
+                raise TranslatorError("_binary_op_precedence entry not understood: " + ast.unparse(k) + ": " + ast.unparse(v))
+            if any(k.value == o for o, _ in table):
+                raise TranslatorError(f"duplicate operator {k.value!r} in _binary_op_precedence")
+            table.append((k.value, level[v.attr]))
+    return fixes, table
+
+
+def render(found: dict, fixes: dict | None = None, table: list | None = None) -> str:
     out = ["(* GENERATED by harness/translate/c03_tables.py from /repo/src/_griffe/expressions.py -- do not edit *)",
-           "From Coq Require Import String.", "From Verif Require Import Model.C03_ops.", "Open Scope string_scope.", ""]
+           "From Coq Require Import String List.", "From Verif Require Import Model.C03_ops.", "Import ListNotations.", "Open Scope string_scope.", ""]
     for pyname, (coqname, ty, prefix, classes) in TABLES.items():
         out.append(f"(* {pyname} *)")
         out.append(f"Definition {coqname} (o : {ty}) : option string :=")
@@ -112,11 +211,20 @@ def render(found: dict) -> str:
         out.append(f"  | {coq_ctor('N', c)} => " + ("None" if v is None else f"Some {_coq_string(v)}"))
     out.append("  end.")
     out.append("")
+    fixes = fixes or {f: False for f in FIXES}
+    out.append("(* repairs detected in expressions.py: " + ", ".join(f"{f}={'yes' if fixes[f] else 'no'}" for f in FIXES) + " *)")
+    out.append("Definition tree_fixes : fixes := mkFx " + " ".join("true" if fixes[f] else "false" for f in FIXES) + ".")
+    out.append("")
+    out.append("(* _binary_op_precedence: operator spelling -> level (numbering of ast._Precedence); empty without the precedence repair *)")
+    out.append("Definition gen_binop_prec : list (string * nat) :=")
+    out.append("  [" + "; ".join(f"({_coq_string(o)}, {lv})" for o, lv in (table or [])) + "].")
+    out.append("")
     return "\n".join(out)
 
 
 def translate(ctx=None) -> Path:
-    text = render(read_tables())
+    fixes, table = read_fixes()
+    text = render(read_tables(), fixes, table)
     p = VERIF / "coq/Gen/C03_tables.v"
     if not p.exists() or p.read_text() != text:
         p.write_text(text)
